@@ -87,11 +87,13 @@ def generate(ctx):
             seed = int(rng.integers(0, 2 ** 31))
             yield 'layout', {'cfg': fc}
             yield 'transforms', {'cfg': fc, 'seed': seed, 'max_onehot': 0 if not big else 4,
-                                 'max_model_analysis': 6 if not big else 1, 'lead': [[], [2], [3]][n % 3] if not big else []}
+                                 'max_model_analysis': 6 if not big else 1, 'lead': [[], [2], [3]][n % 3] if not big else [],
+                                 'dense_analysis_model': not (c['M'] >= 20)}
             ctx.count('variant:base=%d,stacked=%d,rev=%d' % (v['base'], v['stacked'], v['rev']))
         yield 'equiv', {'cfg': c, 'seed': int(rng.integers(0, 2 ** 31)), 'lead': [[], [2]][n % 2],
-                        'variants': VARIANTS if not big else [VARIANTS[0], VARIANTS[7], VARIANTS[4]],
-                        'full_methods_variants': [n % 8, (n + 5) % 8] if not big else [0]}
+                        'variants': ([VARIANTS[0], VARIANTS[7], VARIANTS[4]] if big else VARIANTS if ctx.tier == 'thorough'
+                                     else [VARIANTS[(n + k) % 8] for k in (0, 3, 5, 6)]),
+                        'full_methods_variants': [0] if (big or ctx.tier == 'quick') else [n % 8, (n + 5) % 8]}
 
 
 # ---------------------------------------------------------------------------
